@@ -214,7 +214,13 @@ def exec_session(R, texts, ops, target, want_fp=False):
                     log.append(['help', 'ok', hashlib.sha1(txt.encode()).hexdigest()[:10]])
                 elif kind == 'parse-fails':
                     try:
-                        EP(data=op['text'])
+                        if op.get('raw_hex') is not None:
+                            # a damaged file on the simulated disk (bytes that are not UTF-8, a half-written file),
+                            # read through the path seam like every file the driver reads
+                            fs.put(op['path'], bytes.fromhex(op['raw_hex']))
+                            EP(path=op['path'])
+                        else:
+                            EP(data=op['text'])
                         log.append(['parse-fails', 'accepted'])
                     except R.droop.profile.ElectionProfileError:
                         log.append(['parse-fails', 'error'])
@@ -453,6 +459,12 @@ def gen_session(seed, idx, extended=False):
     trule = rnd.choice(gen.RULES)
     tprof = rnd.randrange(ntexts)
     topts = gen.gen_options(rnd, rule=trule, n=elections[tprof]['n'], slow_ok=False)
+    if idx % 97 == 13 and trule in gen.GENERIC:
+        # an exotic but legal target: numbers of more than a thousand digits (interpreter-wide limits on int<->str
+        # conversion matter only here)
+        topts = {'rule': trule, 'arithmetic': rnd.choice(('fixed', 'guarded')), 'precision': rnd.choice((1100, 2200))}
+        if topts['arithmetic'] == 'guarded':
+            topts['guard'] = rnd.choice((0, 1100))
     target = dict(op='count', profile=tprof, share=rnd.random() < 0.5, options=topts,
                   render=list(rnd.choice(RENDER_ORDERS)))
     if rnd.random() < 0.12:
@@ -481,7 +493,20 @@ def gen_session(seed, idx, extended=False):
         if r < 0.12:
             t = texts[rnd.randrange(ntexts)]
             cut = rnd.randint(0, max(1, len(t) - 1))
-            ops.append({'op': 'parse-fails', 'text': t[:cut]})
+            if rnd.random() < 0.4:
+                # the damaged file lies on disk in another encoding (or cut inside a character) and is read by path
+                how = rnd.choice(('latin-1', 'cp1252', 'utf-16', 'cut', 'ff'))
+                if how == 'cut':
+                    raw = (t[:cut] + 'é').encode('utf-8')[:-1]
+                elif how == 'ff':
+                    raw = t[:cut].encode('utf-8') + b'\xff' + t[cut:].encode('utf-8')
+                else:
+                    raw = ('"Zoë Müller" ' + t).encode(how, 'replace')
+                ops.append({'op': 'parse-fails', 'raw_hex': raw.hex(),
+                            'path': rnd.choice(('/simfs/ballots.blt', '/simfs/other.blt'))})
+                tags.add('parse_fails_undecodable_file_by_path')
+            else:
+                ops.append({'op': 'parse-fails', 'text': t[:cut]})
             tags.add('parse_fails')
             continue
         if extended and r < 0.45:
@@ -522,6 +547,15 @@ def gen_session(seed, idx, extended=False):
         elif q < 0.50:
             o = same_class_options(rnd, topts)
             tags.add('same_class_reinit')
+            if rnd.random() < 0.1:
+                # the predecessor's value EQUALS the target's but is of another type (False == 0, True == 1, 2.0 == 2,
+                # as 'display=no' on a command line or a float from a configuration file produce): a memo keyed by
+                # the option value conflates them
+                key = rnd.choice(('display', 'display', 'precision', 'guard', 'omega'))
+                tv = topts.get(key, rnd.choice((0, 1)) if key == 'display' else None)
+                if isinstance(tv, int) and not isinstance(tv, bool):
+                    o[key] = bool(tv) if tv in (0, 1) else float(tv)
+                    tags.add('predecessor_option_value_of_another_type')
         elif q < 0.58 and topts['rule'] in SIBLING:
             # the sibling rule shares the target rule's class (cfer/cfer-batch, meek/warren, wigm-prf/-batch)
             o = gen.gen_options(rnd, rule=SIBLING[topts['rule']], n=elections[pidx]['n'])
